@@ -28,6 +28,8 @@ def run(C, R):
         E = C.engine(cfg)
         CG = C.cg(cfg)
         R.configs.append(cfg)
+        from common import constructor_state
+        constructor_state(R, C.engine(cfg), C.facts(cfg), STATE, {'is_closed': ('const', 0), 'buffer': ('param', 'buffer'), 'receive_waiters': 'empty-queue', 'send_waiters': 'empty-queue'}, 'C09.R0')
         from common import wrapper_discipline
         R.floor('C09.W wrapper-paths[%s]' % cfg, wrapper_discipline(C, R, cfg, ['channel::mpmc::ChannelState'], 'C09.W'), 2)
         npush = npop = nsucc = nsc = ndirect = nq = 0
